@@ -184,6 +184,13 @@ def run_case(case, ctx):
                 raise Violation("stale-intermediate-state", f"after committing {i} fields: incremental {ld}, one-shot prefix {lp}: {desc()}")
             if bool(getattr(P, "__compiled__", False)) != bool(getattr(D, "__compiled__", False)):
                 raise Violation("compiled-flag-differs", f"after {i} fields: incremental __compiled__={D.__compiled__}, one-shot {P.__compiled__}: {desc()}")
+        # the intermediate class is used (default and keyword construction) before it is extended further
+        inter = lib(D)
+        if isinstance(inter, Err):
+            raise Violation("instance-behaviour-differs", f"after committing {i} fields: default construction raised {inter}: {desc()}", inter.where)
+        if D.__fields__ and D.__fields__[0]._name and not D.__fields__[0].bits and isinstance(getattr(inter, D.__fields__[0]._name, None), int):
+            lib(lambda: D(**{D.__fields__[0]._name: 1}))
+        libside.touch_mutable(inter)
         kinds = (D.dynamic, any(f.bits for f in D.__fields__), D.alignment, any(f.name is None for f in D.__fields__))
         if kinds_before is not None and kinds != kinds_before:
             kind_change = True
@@ -234,6 +241,12 @@ def run_case(case, ctx):
                 raise Violation("instance-behaviour-differs", f"{name}: bool differs: {desc({'construction': name})}")
             if lib(lambda: r == T(io.BytesIO(inp))) is not True and not refsem.has_nan(libside.plain(r)):
                 raise Violation("instance-behaviour-differs", f"{name}: two parses of the same bytes are not equal: {desc({'construction': name})}")
+        # defaults are per instance: changing one default instance's arrays / nested members in place leaves the next one alone
+        touched = lib(lambda: libside.touch_mutable(T()))
+        if isinstance(touched, Err):
+            raise Violation("instance-behaviour-differs", f"{name}: changing a default instance in place raised {touched}: {desc({'construction': name})}", touched.where)
+        if touched:
+            ctx.count("defaults:mutable-touched")
         dflt = lib(lambda: libside.cplain(T()))
         if isinstance(dflt, Err) != isinstance(base_default, Err) or (not isinstance(dflt, Err) and dflt != base_default):
             raise Violation("instance-behaviour-differs", f"{name}: default instance {dflt!r} vs text-struct {base_default!r}: {desc({'construction': name})}")
